@@ -8,6 +8,7 @@ from kfv import symexec
 from kfv.core import AnalysisError
 from kfv.core import AnalysisIncomplete
 from kfv.core import Ctx
+from kfv.rules import memo_rules as MEMO
 from kfv.model import norm
 from kfv.rules.spmd_rules import conjuncts
 from kfv.terms import Normalizer
@@ -247,6 +248,7 @@ def run(ctx: Ctx) -> None:
     ctx.assumptions -= {'A6'}
     ctx.do(rule_scheduler)
     ctx.do(rule_expdecay)
+    ctx.do(MEMO.rule_memo)
 
 
 def _cmp_is(t: ast.expr, name: str, op: str, const: int) -> bool:
